@@ -36,6 +36,17 @@ def hostile_bodies(ctx):
         b = [0xB1, 1, 0xE3, 0x00, 0, v] + [1] * (v % 3); out.append(("props-ieco-size", b))
         b = list(good["energy"]); b[3] = v; out.append(("group-byte", b))
         b = [0xC1, 0x21, 0x01, v]; out.append(("group-short", b))
+    # every known property id x value bytes (an enumeration fed a value outside its members), as query reply and as write ack;
+    # every capability id of the low page x value bytes
+    vals = range(256) if ctx.deep else [0, 1, 2, 3, 4, 5, 6, 7, 50, 100, 101, 127, 128, 200, 254, 255]
+    for pid in (0x09, 0x0A, 0x15, 0x18, 0x1A, 0x39, 0x42, 0x43, 0x48, 0x4B, 0xE3, 0x21E, 0x44):
+        for v in vals:
+            for rid in (0xB1, 0xB0):
+                out.append(("props-value", A.props_body([(pid, 0, [v])], rid=rid)))
+            out.append(("props-value2", A.props_body([(pid, 0, [v, v ^ 0x5A])])))
+    for cid in list(range(0x210, 0x236)) + [0x10, 0x18, 0x1E, 0x39, 0x42, 0x43, 0x48, 0x4B, 0xE3]:
+        for v in vals:
+            out.append(("caps-value", A.caps_body([(cid, [v])])))
     for rid in range(256):                                 # every response id with random bodies
         for _ in range(ctx.n(2, 12)):
             out.append(("id-random", [rid] + A.rbytes(rng, rng.randrange(0, 40)) if hasattr(A, "rbytes") else [rid] + [rng.randrange(256) for _ in range(rng.randrange(0, 40))]))
